@@ -197,9 +197,13 @@ CHECKS = {
              "(c01_int, c01_float, c01_datetime / c01_datetime_valid, c01_uri, c01_str, c01_bool, c01_qname, c01_lang_literal, c01_typed_literal): decoding the "
              "encoded value and storing it again yields the same value at URI level with the same kind/datatype/language, under the "
              "explicit hypothesis that the names it mentions are readable in the reading scope (ReadsAs / StdNames, discharged for "
-             "reachable managers by C03). Tied to /repo by three channels on every generated document: writer tree, reader on the same "
+             "reachable managers by C03). Record level (Props/C01R.lean): c01_record -- for every stored record whose names are readable and whose "
+             "attribute names print differently, the object written by the writer's loop (enc_fold: one member per attribute, in order) is "
+             "accepted by the reader's loop (dec_fold: exact `formal` dictionary and `other_attributes` list), and the resulting add_attributes "
+             "arguments rebuild, in any manager state, a record with exactly the stored (attribute URI, ==-value) pairs (via C09C loop_args); "
+             "non-vacuity shown on a concrete heap and record. Tied to /repo by three channels on every generated document: writer tree, reader on the same "
              "text, strict end-to-end comparison for all json.dump option sets.",
-        note=A_COMMON + " Record/bundle multiplicity (anonymous-id allocation, arrays for repeated identifiers) is mirrored in the model "
+        note=A_COMMON + " Container level (anonymous-id allocation, arrays for repeated identifiers, prefix blocks) is mirrored in the model "
              "and compared, not yet proved. Known finding C01-1: names not readable in their bundle's scope (C03-1) change URI. "
              "A-JSONTEXT assumed; of A-LEX only float(repr(x)) = x remains an assumption: int(str(n)) = n is core's toInt?_repr and "
              "parse(isoformat(t)) = t is proved for every valid date-time (Prov/Lemmas/Iso.lean: parseIso_iso), dateutil agreeing with the "
